@@ -90,6 +90,86 @@ def check_verdicts(case, ctx):
 
 
 # ------------------------------------------------------------------------------------------------
+# arbitrary (multi-fault) argument structures through all five classes
+# ------------------------------------------------------------------------------------------------
+SCALARS = ["none", "int", "float", "str", "true", "object", "empty-list", "empty-tuple", "dict"]
+
+
+def _scalar(name):
+    return {"none": None, "int": 21, "float": 2.5, "str": "x", "true": True, "object": object(), "empty-list": [], "empty-tuple": (), "dict": {"a": 1}}[name]
+
+
+@st.composite
+def arg_specs(draw):
+    """JSON description of a possibly multiply malformed call."""
+    player = st.one_of(st.just(["own"]), st.just(["own"]), st.just(["own"]), st.tuples(st.just("foreign"), st.integers(0, 3)).map(list),
+                       st.tuples(st.just("scalar"), st.sampled_from(SCALARS)).map(list))
+    team = st.one_of(
+        st.tuples(st.just("list"), st.lists(player, min_size=0, max_size=3)).map(list),
+        st.tuples(st.just("list"), st.lists(player, min_size=1, max_size=2)).map(list),
+        st.tuples(st.just("tuple"), st.lists(player, min_size=0, max_size=2)).map(list),
+        st.tuples(st.just("scalar"), st.sampled_from(SCALARS)).map(list))
+    teams = draw(st.one_of(
+        st.tuples(st.just("list"), st.lists(team, min_size=0, max_size=4)).map(list),
+        st.tuples(st.just("list"), st.lists(team, min_size=2, max_size=3)).map(list),
+        st.tuples(st.just("tuple"), st.lists(team, min_size=0, max_size=3)).map(list),
+        st.tuples(st.just("scalar"), st.sampled_from(SCALARS)).map(list)))
+    elem = st.one_of(st.integers(-2, 3), st.floats(-2.0, 2.0), st.booleans(), st.tuples(st.just("scalar"), st.sampled_from(SCALARS)).map(list))
+    sel = st.one_of(st.none(), st.lists(elem, min_size=0, max_size=5), st.tuples(st.just("scalar"), st.sampled_from(SCALARS)).map(list),
+                    st.tuples(st.just("tuple"), st.lists(st.integers(0, 3), min_size=1, max_size=3)).map(list))
+    return {"op": draw(st.sampled_from(["rate", "rate", "predict_win", "predict_draw", "predict_rank"])), "teams": teams,
+            "ranks": draw(sel), "scores": draw(st.one_of(st.none(), st.none(), sel))}
+
+
+def _build(spec, model, others):
+    tag = spec[0]
+    if tag == "own":
+        return model.rating(20.0, 5.0)
+    if tag == "foreign":
+        return others[spec[1]].rating(20.0, 5.0)
+    if tag == "scalar":
+        return _scalar(spec[1])
+    items = [_build(x, model, others) for x in spec[1]]
+    return items if tag == "list" else tuple(items)
+
+
+def _build_sel(spec):
+    if spec is None:
+        return None
+    if isinstance(spec, list) and spec and spec[0] == "scalar" and isinstance(spec[1], str):
+        return _scalar(spec[1])
+    if isinstance(spec, list) and spec and spec[0] == "tuple" and isinstance(spec[1], list):
+        return tuple(spec[1])
+    return [(_scalar(e[1]) if isinstance(e, list) else e) for e in spec]
+
+
+def check_arg_verdicts(case, ctx):
+    verdicts = {}
+    cl = classes()
+    for kind in KINDS:
+        model = cl[kind]()
+        others = [cl[k]() for k in KINDS if k != kind]
+        teams = _build(case["teams"], model, others)
+        kw = {}
+        if case["op"] == "rate":
+            for name in ("ranks", "scores"):
+                v = _build_sel(case[name])
+                if v is not None:
+                    kw[name] = v
+        try:
+            getattr(model, case["op"])(teams, **kw)
+            verdicts[kind] = "accepted"
+        except Exception as e:  # noqa: BLE001
+            verdicts[kind] = type(e).__name__
+        ctx.called()
+    if len(set(verdicts.values())) != 1:
+        raise Violation("arg-verdict-differs:" + case["op"], f"{case['op']} with teams spec {case['teams']} ranks {case['ranks']} scores {case['scores']}: verdicts {verdicts}")
+    v = verdicts["PL"]
+    ctx.label("verdict:" + v, "op:" + case["op"])
+    ctx.nontrivial_if(v != "accepted")
+
+
+# ------------------------------------------------------------------------------------------------
 def surface_custom(ctx, seed, tier, shard, nshards, n):
     """Deterministic, exhaustive: public surface of the five classes (signatures, attribute names), MODELS registry."""
     import openskill.models as om
@@ -250,6 +330,10 @@ PROPERTY = Property(
                rule="value-equal teams and equal parameters through all five classes; the three predictions compared bit for bit; non-trivial = >= 3 teams"),
         Clause(name="verdicts-identical", strategy=gen.games(kinds=["PL"], max_teams=4, max_size=2), check=check_verdicts, quick=160, thorough=3000,
                rule="every case of the C13 fault grammar through all five classes: same verdict (accepted / exception class)"),
+        Clause(name="argument-verdicts", strategy=arg_specs(), check=check_arg_verdicts, quick=6000, thorough=100000,
+               rule="arbitrary, possibly MULTIPLY malformed argument structures (0-4 teams of 0-3 own / foreign / non-rating players, wrong containers at each "
+                    "level, ranks / scores valid, garbage, wrong length, both) through all five classes: same verdict (accepted / exception class); "
+                    "non-trivial = the call is rejected"),
         Clause(name="public-surface", kind="custom", custom=surface_custom, quick=1, thorough=1, shards_quick=1, shards_thorough=1,
                rule="exhaustive: inspect.signature of every public and special method of the five model and five rating classes after normalising the class's "
                     "own names; public attribute names; constructor defaults; repr/str; MODELS registry"),
